@@ -2,12 +2,15 @@
 from __future__ import annotations
 
 import ast
+import builtins
 import json
+import re
 import sys
 import types
 
 from vcommon import Prop
 import gen_c05 as G
+import gen_c20 as G20
 
 ROOTS = ["ta", "tb", "tc"]
 PARTS = ["b", "c", "d"]
@@ -195,13 +198,21 @@ def build(spec):
     return objs
 
 
-def dotted_names_of(code):
-    """all dotted chains (and their prefixes) that occur in the source text / dotted string"""
-    out = set()
+def parse_like_impl(src):
+    """the two-step parse of find_missing_imports(str): -> (tree, type comments were parsed)"""
     try:
-        tree = ast.parse(code)
+        return ast.parse(src, type_comments=True), True
     except SyntaxError:
-        return out
+        return ast.parse(src), False
+
+
+def read_type_comments(tree):
+    """the type comments the analysis visits (`_visit_typecomment`): those of def / for / parameters"""
+    return [n.type_comment for n in ast.walk(tree)
+            if isinstance(n, (ast.FunctionDef, ast.AsyncFunctionDef, ast.For, ast.AsyncFor, ast.arg)) and getattr(n, "type_comment", None)]
+
+
+def _chains(tree, out):
     for n in ast.walk(tree):
         parts = None
         if isinstance(n, ast.Attribute):
@@ -215,9 +226,34 @@ def dotted_names_of(code):
             parts = [n.id]
         elif isinstance(n, ast.alias):
             parts = n.name.split(".")
+        elif isinstance(n, ast.Constant) and isinstance(n.value, str) and re.fullmatch(r"[A-Za-z_]\w*(\.[A-Za-z_]\w*)*", n.value):
+            parts = n.value.split(".")          # `__all__ = ["a.b"]`
         if parts:
             for k in range(1, len(parts) + 1):
                 out.add(".".join(parts[:k]))
+
+
+def dotted_names_of(code, typed=False, text=False):
+    """all dotted chains (and their prefixes) that occur in the source text / dotted string; typed: also those inside the
+    type comments the analysis reads; text: every dotted word of the text (docstrings: doctests, `{name}`)"""
+    out = set()
+    if text:
+        for w in re.findall(r"[A-Za-z_]\w*(?:\.[A-Za-z_]\w*)*", code):
+            parts = w.split(".")
+            for k in range(1, len(parts) + 1):
+                out.add(".".join(parts[:k]))
+        return out
+    try:
+        tree, tc = parse_like_impl(code) if typed else (ast.parse(code), False)
+    except SyntaxError:
+        return out
+    _chains(tree, out)
+    if tc:
+        for c in read_type_comments(tree):
+            try:
+                _chains(ast.parse(c, mode="func_type") if "->" in c else ast.parse(c), out)
+            except SyntaxError:
+                pass
     return out
 
 
@@ -232,13 +268,21 @@ class C20(Prop):
         "Pfb.C20.C20_readonly",
         "Pfb.PyCore.symbolNeedsImport_spec",
     ]
-    rule = ("find_missing_imports(code, namespaces) with code = a dotted name of depth 1-5, a generated mini-Python program "
-            "(source) or its ast; namespaces = 1-3 dicts populated with trap objects (recording __getattribute__, __setattr__, "
+    rule = ("find_missing_imports(code, namespaces) with code = a dotted name of depth 1-5 (str or DottedIdentifier), a generated "
+            "mini-Python program as source / ast / PythonBlock (gen_c05's statements plus, from gen_c20: dict and set displays, "
+            "comparisons, and/or/not, f-strings, slices, */**/keyword arguments, yield, walrus, match statements with every pattern "
+            "kind, `type` aliases, PEP 695 generics, async def/for/with, assert, raise-from, except*, star imports, __all__, "
+            "del v[i], attribute/subscript comprehension targets, type comments), a code object / function / lambda / callable "
+            "object / builtin (byte-code analysis), or scan_for_import_issues(PythonBlock) in unused-import mode with docstrings; "
+            "namespaces = 1-3 dicts passed as list / single dict / tuple / ScopeStack, populated with trap objects (recording "
+            "__getattribute__, __setattr__, "
             "__delattr__, properties, __eq__, __hash__, __bool__, __len__, __iter__, __call__, __repr__; ModuleType subclasses; "
             "proxies; objects whose class has an attribute named `used` — class constant, property with recording setter, "
-            "dataclass field — like the analysis' own `_UseChecker`), None and ints; "
+            "dataclass field — like the analysis' own `_UseChecker`), None and ints; trap objects also in `builtins`; "
             "a registry (sys.modules entries for a private universe ta/tb/tc) that is mostly, not always, consistent with the "
             "attribute graph; objects that are nobody's registry entry raise on any touch; a recording sys.meta_path finder. "
+            "K covers every case whose program desugars to the model's constructs (gen_c20 header); O-only: walrus inside "
+            "comprehension/lambda, PEP 695 generics, type comments that are read, code object of a whole program, unused-import mode. "
             "non-trivial = at least one recorded event or one reported name; distinct by code+namespaces+registry")
     trusted_base = ["the trap classes of harness/c20.py record every attribute access except `__class__` (the isinstance() fallback, "
                     "stated outside the quantifier); plain ints/None cannot record",
@@ -307,17 +351,44 @@ class C20(Prop):
                 else:
                     d[key] = rng.randrange(nobj)
             nss.append(d)
+        case = dict(objs=objs, registry=registry, ns=nss)
+        # the forms in which namespaces may be passed (ScopeStack.__init__): list, one dict, tuple, a ScopeStack
         r = rng.random()
-        if r < 0.5:
+        if r < 0.12 and len(nss) == 1:
+            case["nsform"] = "dict"
+        elif r < 0.2:
+            case["nsform"] = "tuple"
+        elif r < 0.28:
+            case["nsform"] = "stack"
+        # trap objects in `builtins` (the first scope of every ScopeStack; IPython and users put objects there)
+        if rng.random() < 0.12:
+            case["builtins"] = {rng.choice(ROOTS + VN): rng.randrange(nobj)}
+            if registry and rng.random() < 0.5:
+                root = rng.choice(sorted(registry)).split(".")[0]       # the root of a registry chain is always registered
+                case["builtins"][root] = registry[root]
+        keys = sorted({k for d in nss for k in d if "." not in k}) or VN
+        r = rng.random()
+        if r < 0.38:
             parts = [rng.choice(ROOTS + VN)] + [rng.choice(PARTS) for _ in range(rng.choice([0, 1, 1, 2, 2, 3, 4]))]
             code = dict(mode="dotted", name=".".join(parts))
+            if rng.random() < 0.15:
+                code["form"] = "ident"           # a DottedIdentifier instead of a str
+        elif r < 0.44:
+            # a code object / function / lambda / callable object / builtin: the byte-code analysis
+            names = []
+            for _ in range(rng.choice([1, 2, 3, 4])):
+                names.append(".".join([rng.choice(ROOTS + VN + keys)] + [rng.choice(PARTS) for _ in range(rng.choice([0, 1, 1, 2, 3]))]))
+            code = dict(mode="code", names=names, form=rng.choice(["code", "func", "lambda", "callable", "callable", "builtin"]))
+            if rng.random() < 0.3:
+                # the code object of a whole generated program (stores, closures, loops, nested code objects): O-only
+                code = dict(mode="code", form="module", names=[],
+                            prog=G20.Gen20(rng, ROOTS, PARTS, VN, new=rng.choice([0.0, 0.15])).program(nstmts=rng.choice([1, 2, 3])))
         else:
-            g = G.Gen(rng)
-            g.R, g.S, g.M, g.A, g.V = ROOTS, PARTS, PARTS, PARTS, VN
+            scan = r < 0.50
+            g = G20.Gen20(rng, ROOTS, PARTS, VN, new=0.0 if scan else rng.choice([0.0, 0.12, 0.25, 0.35]))
             prog = g.program(nstmts=rng.choice([1, 1, 2, 3]))
             # `del NAME` / `global NAME; del NAME` of names that only the caller's namespaces bind (the property's claim
             # "namespaces are left unmodified" holds for all code, also for code outside C05's claimed domain)
-            keys = sorted({k for d in nss for k in d if "." not in k}) or VN
             for _ in range(rng.choice([0, 0, 1, 1, 2])):
                 n = rng.choice(keys + VN[:1])
                 r2 = rng.random()
@@ -330,8 +401,67 @@ class C20(Prop):
                 else:
                     st = ["classDef", "C", [], [["delete", [["name", n]]]], []]
                 prog["body"].insert(rng.randrange(len(prog["body"]) + 1), st)
-            code = dict(mode="prog" if rng.random() < 0.7 else "ast", prog=prog)
-        return dict(objs=objs, registry=registry, ns=nss, code=code)
+            if scan:
+                # tidy-imports' entry: unused-import mode, docstrings with doctests and `{name}` references
+                def doc():
+                    ws = [".".join([rng.choice(ROOTS + VN)] + [rng.choice(PARTS) for _ in range(rng.choice([0, 1, 2]))]) for _ in range(3)]
+                    return ["expr", ["str", "text {%s} {%s}\n>>> %s(%s)\n>>> import %s\n" % (ws[0].split(".")[0], rng.choice(VN + ["class"]), ws[1], ws[2], rng.choice(ROOTS))]]
+                prog["body"].insert(0, doc())
+                for st in prog["body"]:
+                    if st[0] in ("funcDef", "classDef") and rng.random() < 0.6:
+                        st[3].insert(0, doc())
+                for _ in range(rng.choice([1, 2, 3])):
+                    root = rng.choice(ROOTS)
+                    imp = rng.choice([["import", [[root, None]]], ["import", [[root + "." + rng.choice(PARTS), None]]],
+                                      ["import", [[root, rng.choice(VN)]]], ["importFrom", root, [[rng.choice(PARTS), rng.choice(VN + [None])]]],
+                                      ["importFrom", root, [["*", None]]]])
+                    prog["body"].insert(rng.randrange(1, len(prog["body"]) + 1), imp)
+                code = dict(mode="scan", prog=prog, docstrings=rng.random() < 0.8, unused=rng.random() < 0.85)
+            else:
+                r3 = rng.random()
+                code = dict(mode="prog" if r3 < 0.6 else "ast" if r3 < 0.85 else "block", prog=prog)
+        case["code"] = code
+        return case
+
+    def exhaustive_cases(self, tier, rng):
+        """every construct of gen_c20.snippets() against two fixed trap namespaces, as source / ast / PythonBlock"""
+        setups = [
+            # x: an exploding trap; ta -> ta.b -> ta.b.c a registry-consistent chain of recording objects
+            dict(objs=[dict(kind="trap_up", attrs={"b": 3}), dict(kind="tmod", attrs={"b": 2}), dict(kind="trap", attrs={"c": 3}),
+                       dict(kind="prop", attrs={"d": 0})],
+                 registry={"ta": 1, "ta.b": 2, "ta.b.c": 3}, ns=[{"x": 0, "ta": 1}]),
+            # x is itself a registered proxy module; ta is a module object that is NOT the registry entry; y is bound
+            dict(objs=[dict(kind="prop", attrs={"b": 2}), dict(kind="tmod_uc", attrs={"b": 2}), dict(kind="trap_ud", attrs={}),
+                       dict(kind="tmod", attrs={"b": 2}), dict(kind="none", attrs={})],
+                 registry={"x": 0, "ta": 3, "x.b": 2}, ns=[{"x": 0, "y": 4}, {"ta": 1, "q": 2}], builtins={"w": 2}),
+        ]
+        out = []
+        for label, body in G20.snippets():
+            for k, st in enumerate(setups):
+                for mode in ("prog", "ast", "block"):
+                    c = json.loads(json.dumps(st))
+                    c["code"] = dict(mode=mode, prog={"body": json.loads(json.dumps(body)), "calls": []})
+                    c["label"] = label
+                    if mode == "block":
+                        c["nsform"] = ["tuple", "stack"][k]
+                    out.append(c)
+        # unused-import mode (tidy-imports' entry), O-only: rebinding imports in handlers / conditionals, docstrings
+        scans = [
+            [["expr", ["str", "doc {x} {class} {w}\n>>> ta.b.c(x.b)\n>>> import ta\n"]], ["import", [["ta", "x"]]],
+             ["try", [["expr", ["name", "w"]]], [[["name", "Exception"], "x", [["expr", ["attr", ["name", "x"], "b"]]]]], [], []],
+             ["expr", ["attr", ["attr", ["name", "ta"], "b"], "c"]]],
+            [["import", [["ta.b", None]]], ["import", [["ta", None]]], ["if", ["name", "w"], [["importFrom", "ta", [["b", "x"]]]], []],
+             ["funcDef", "f", {"args": [], "defaults": []}, [["expr", ["str", ">>> x.b\n"]], ["return", ["attr", ["name", "x"], "b"]]], [], None],
+             ["importFrom", "ta", [["*", None]]], ["assign", [["attr", ["attr", ["name", "ta"], "b"], "c"]], ["name", "w"]]],
+        ]
+        for body in scans:
+            for k, st in enumerate(setups):
+                for unused in (True, False):
+                    c = json.loads(json.dumps(st))
+                    c["code"] = dict(mode="scan", prog={"body": json.loads(json.dumps(body)), "calls": []}, docstrings=True, unused=unused)
+                    c["label"] = "scan"
+                    out.append(c)
+        return out
 
     # -- implementation --------------------------------------------------------
     def setup(self, tier, rng):
@@ -344,27 +474,92 @@ class C20(Prop):
         G.install_builtins()
         objs = build(case)
         code = case["code"]
-        if code["mode"] == "dotted":
+        mode = code["mode"]
+        obs = dict(nok=[], features=[])
+        located = None
+        call = find_missing_imports
+        if mode == "dotted":
             arg = src = code["name"]
-            located = None
+            if code.get("form") == "ident":
+                from pyflyby._idents import DottedIdentifier
+                arg = DottedIdentifier(src)
+        elif mode == "code":
+            names = code["names"]
+            src = "\n".join(names) + "\n"
+            g = {}
+            form = code["form"]
+            if form == "module":
+                src, _, ctx = G20.render(code["prog"])
+                obs["nok"] = ["code-of-program"]
+                obs["features"] = sorted(ctx.features)
+                try:
+                    arg = compile(src, "<c20prog>", "exec")
+                except SyntaxError:           # e.g. `yield` in a class body: rejected by the compiler, not by the parser
+                    arg = src
+            elif form == "lambda":
+                arg = eval("lambda: (%s,)" % ", ".join(names), g)
+            elif form == "builtin":
+                arg = len
+            elif form == "callable":
+                exec("class Cb(object):\n    def __call__(self):\n" + "".join("        %s\n" % n for n in names), g)
+                arg = g["Cb"]()
+            else:
+                exec("def f():\n" + "".join("    %s\n" % n for n in names), g)
+                arg = g["f"].__code__ if form == "code" else g["f"]
         else:
-            src, _, located = G.render_full(code["prog"])
-            arg = src if code["mode"] == "prog" else ast.parse(src)
+            src, located, ctx = G20.render(code["prog"])
+            obs["nok"] = sorted(set(ctx.nok))
+            obs["features"] = sorted(ctx.features)
+            if mode == "prog":
+                arg = src
+                tree, typed = parse_like_impl(src)
+                if typed and read_type_comments(tree):
+                    obs["nok"].append("type-comment-read")
+            elif mode == "ast":
+                arg = ast.parse(src)
+            else:
+                from pyflyby._parse import PythonBlock
+                arg = PythonBlock(src)
+                tree, typed = parse_like_impl(src)
+                if typed and read_type_comments(tree):
+                    obs["nok"].append("type-comment-read")
+                if mode == "scan":
+                    from pyflyby._autoimp import scan_for_import_issues
+                    obs["nok"].append("scan-mode")
+
+                    def call(a, nss):
+                        missing, unused = scan_for_import_issues(a, find_unused_imports=code.get("unused", True), parse_docstrings=code.get("docstrings", True))
+                        return [m[1] for m in missing]
+        obs["src"] = src
         dump0 = ast.dump(arg) if isinstance(arg, ast.AST) else None
         nss = [{k: objs[j] for k, j in d.items()} for d in case["ns"]]
         before = [list(d.items()) for d in nss]
+        nsform = case.get("nsform", "list")
+        if nsform == "dict":
+            nsarg = nss[0]
+        elif nsform == "tuple":
+            nsarg = tuple(nss)
+        elif nsform == "stack":
+            from pyflyby._autoimp import ScopeStack
+            nsarg = ScopeStack(nss)
+        else:
+            nsarg = nss
         saved = {}
         for name, j in case["registry"].items():
             saved[name] = sys.modules.get(name, saved)
             sys.modules[name] = objs[j]
+        bsaved = {}
+        for name, j in case.get("builtins", {}).items():
+            bsaved[name] = builtins.__dict__.get(name, bsaved)
+            builtins.__dict__[name] = objs[j]
+        b0 = [(k, id(v)) for k, v in builtins.__dict__.items()]
         keys0 = set(sys.modules)
         wire = _Tripwire()
         sys.meta_path.insert(0, wire)
         del EVENTS[:]
-        obs = dict(src=src)
         try:
-            res = find_missing_imports(arg, nss)
-            obs["result"] = sorted(str(x) for x in res)
+            res = call(arg, nsarg)
+            obs["result"] = sorted(set(str(x) for x in res))
         except Exception as e:
             obs["err"] = type(e).__name__ + ": " + str(e)[:200]
         finally:
@@ -376,6 +571,12 @@ class C20(Prop):
             obs["ns_same"] = (len(before) == len(after) and all(
                 len(a) == len(b) and all(ka == kb and va is vb for (ka, va), (kb, vb) in zip(a, b))
                 for a, b in zip(before, after)))
+            obs["builtins_same"] = b0 == [(k, id(v)) for k, v in builtins.__dict__.items()]
+            for name, v in bsaved.items():
+                if v is bsaved:
+                    builtins.__dict__.pop(name, None)
+                else:
+                    builtins.__dict__[name] = v
             # which recorded getattr hit the sys.modules entry of a dotted name, by identity
             regnames = {}
             for name in case["registry"]:
@@ -397,7 +598,10 @@ class C20(Prop):
     def oracle(self, case, obs):
         fails = []
         src = obs["src"]
-        dotted = dotted_names_of(src)
+        mode = case["code"]["mode"]
+        # the dotted names the analysed text mentions; type comments are read from source text and PythonBlocks only;
+        # in unused-import mode the docstrings are analysed too (doctests, `{name}`): every dotted word of the text counts
+        dotted = dotted_names_of(src, typed=mode in ("prog", "block", "scan"), text=mode == "scan")
         for e in obs["events"]:
             ok = False
             if e[0] == "getattr":
@@ -412,6 +616,8 @@ class C20(Prop):
             fails.append(dict(what="import attempted by analysis", imports=obs["imports"][:5], added=obs["sysmodules_added"][:5], src=src))
         if not obs["ns_same"]:
             fails.append(dict(what="caller's namespaces modified", src=src))
+        if not obs.get("builtins_same", True):
+            fails.append(dict(what="builtins namespace modified", src=src))
         if not obs["ast_same"]:
             fails.append(dict(what="source AST modified", src=src))
         if "err" in obs and not fails:
@@ -420,6 +626,12 @@ class C20(Prop):
 
     # -- model -------------------------------------------------------------------
     def model_requests(self, case, obs):
+        """No request (the case is O-only) when the analysed program has a construct whose desugaring is not equivalent
+        (obs["nok"]: walrus inside a comprehension / lambda, PEP 695 generics, `type` in a class body, a type comment the
+        analysis reads, unused-import mode) — see gen_c20's header."""
+        if obs.get("nok"):
+            return []
+
         def val(j):
             return None if case["objs"][j]["kind"] == "none" else j
         ns = [[[k, val(j)] for k, j in d.items()] for d in case["ns"]]
@@ -428,18 +640,23 @@ class C20(Prop):
         for i, o in enumerate(case["objs"]):
             for a, j in o["attrs"].items():
                 attrs.append([i, a, val(j)])
-        import builtins
-        b = [[n, 100000 + k] for k, n in enumerate(builtins.__dict__.keys())]
-        req = dict(op="c20", mode=case["code"]["mode"], builtins=b, ns=ns, registry=dict(mods=mods, attrs=attrs),
-                   fixes=obs.get("fixes", {}))
-        if case["code"]["mode"] == "dotted":
-            req["name"] = case["code"]["name"]
-        else:
-            req["prog"] = obs["located"]
-        return [req]
+        inj = case.get("builtins", {})
+        b = [[n, 100000 + k] for k, n in enumerate(builtins.__dict__.keys()) if n not in inj] + [[n, val(j)] for n, j in inj.items()]
+        mode = case["code"]["mode"]
+        req = dict(op="c20", mode="dotted" if mode in ("dotted", "code") else "prog", builtins=b, ns=ns,
+                   registry=dict(mods=mods, attrs=attrs), fixes=obs.get("fixes", {}))
+        if mode == "dotted":
+            return [dict(req, name=case["code"]["name"])]
+        if mode == "code":
+            # `_find_missing_imports_in_code`: symbol_needs_import for every global load of the code object, in sorted order
+            if case["code"]["form"] == "builtin":
+                return []
+            return [dict(req, name=n) for n in sorted(set(case["code"]["names"]))]
+        return [dict(req, prog=obs["located"])]
 
     def compare(self, case, obs, resps):
-        m = resps[0]
+        m = dict(missing=sorted(set(x for r in resps for x in r["missing"])), effects=[e for r in resps for e in r["effects"]],
+                 readonly=all(r["readonly"] for r in resps))
         if "err" in obs:
             return "implementation raised %s (model: %r)" % (obs["err"], m.get("missing"))
         if obs["result"] != m["missing"]:
@@ -478,6 +695,15 @@ class C20(Prop):
         inc("getattr_events_%s" % ("0" if n == 0 else "1-3" if n <= 3 else ">3"))
         if "err" in obs:
             inc("impl_raised")
+        inc("nsform_" + case.get("nsform", "list"))
+        if case.get("builtins"):
+            inc("builtins_traps")
+        for f in obs.get("features", []):
+            inc("construct_" + f)
+        for r in obs.get("nok", []):
+            inc("O_only_" + r)
+        if obs.get("nok"):
+            inc("O_only_cases")
 
 
 PROP = C20()
